@@ -434,56 +434,49 @@ def write_xml(species, groups, one_line=False):
     return ''.join(out)
 
 
-def gen_case(rng, nleaves=None, nfam=None, explicit=False, fancy_names=False, use_internal=None,
-             max_leaves=10, tag='main', **spell_kw):
+class Plan(object):
+    """tree + histories + singletons + gene declarations: everything but the spelling"""
+    pass
+
+
+def gen_plan(rng, nleaves=None, nfam=None, fancy_names=False, use_internal=None, max_leaves=10):
+    pl = Plan()
     if nleaves is None:
         nleaves = rng.randint(2, max_leaves)
     shape = rng.choice([None, None, None, None, 'caterpillar', 'balanced', 'star'])
-    tree = gen_tree(rng, nleaves, max_arity=rng.choice([2, 3, 4, 5]), fancy_names=fancy_names, shape=shape)
-    if use_internal is None:
-        use_internal = rng.random() < 0.6
-    named = tree if use_internal else synth_names(tree)
+    pl.tree = gen_tree(rng, nleaves, max_arity=rng.choice([2, 3, 4, 5]), fancy_names=fancy_names, shape=shape)
+    pl.use_internal = (rng.random() < 0.6) if use_internal is None else use_internal
+    pl.named = pl.tree if pl.use_internal else synth_names(pl.tree)
     if nfam is None:
         nfam = rng.randint(0, 4)
     ids = Ids()
     genes = []
-    hists = []
-    internals = [n for n in named.nodes() if n.kids]
+    pl.hists = []
+    internals = [n for n in pl.named.nodes() if n.kids]
     p_loss = rng.choice([0.1, 0.25, 0.4])
     p_dup = rng.choice([0.1, 0.25, 0.4])
     for _ in range(nfam):
-        root = rng.choice(internals) if rng.random() < 0.5 else named
+        root = rng.choice(internals) if rng.random() < 0.5 else pl.named
         h = gen_history(rng, root, ids, p_loss, p_dup, True, genes)
         if h is not None:
-            hists.append(h)
-    # singletons
-    singles = []
-    leaves = named.leaves()
+            pl.hists.append(h)
+    pl.singles = []
+    leaves = pl.named.leaves()
     for _ in range(rng.choice([0, 0, 1, 2, 3])):
         lf = rng.choice(leaves)
         g = ids.next()
         genes.append((g, lf))
-        singles.append(g)
-    sp = Speller(rng, named, explicit=explicit, **spell_kw)
-    groups = []
-    histories = []
-    for h in hists:
-        it = sp.explicit(h)
-        groups.append(it)
-        histories.append((it[1] if it[1] is not None else it[2], h))
-    # species blocks: species with genes, plus some declared-empty species; some leaves undeclared
+        pl.singles.append(g)
     by_leaf = {}
     for g, lf in genes:
         by_leaf.setdefault(lf.path, []).append(g)
-    species = []
-    order = list(leaves)
-    rng.shuffle(order)
-    for lf in order:
+    pl.species = []
+    for lf in leaves:
         gs = by_leaf.get(lf.path, [])
         if not gs and rng.random() < 0.5:
             continue
         decls = []
-        for g in sorted(gs, key=lambda x: rng.random()):
+        for g in gs:
             d = {'id': g}
             if rng.random() < 0.8:
                 d['protId'] = 'P' + g
@@ -492,13 +485,42 @@ def gen_case(rng, nleaves=None, nfam=None, explicit=False, fancy_names=False, us
             if rng.random() < 0.2:
                 d['transcriptId'] = 'T' + g
             decls.append(d)
-        species.append((lf.name, decls))
+        pl.species.append((lf.name, decls))
+    pl.nleaves = nleaves
+    pl.ngenes = len(genes)
+    return pl
+
+
+def spell_plan(rng, pl, explicit=False, tag='main', group_ids=None, **spell_kw):
+    """one permitted spelling of the plan: random member/species/gene order, omissions, wrappers, nesting"""
+    sp = Speller(rng, pl.named, explicit=explicit, **spell_kw)
+    groups = []
+    histories = []
+    for k, h in enumerate(pl.hists):
+        it = sp.explicit(h)
+        if group_ids is not None:
+            it = ('og', group_ids[k], None, it[3])
+        groups.append(it)
+        histories.append((it[1] if it[1] is not None else it[2], h))
+    order = list(range(len(groups)))
+    rng.shuffle(order)
+    groups = [groups[i] for i in order]
+    histories = [histories[i] for i in order]
+    species = [(n, sorted(gs, key=lambda x: rng.random())) for n, gs in pl.species]
+    rng.shuffle(species)
     stats = dict(sp.stats)
-    stats.update({'leaves': nleaves, 'families': len(hists), 'genes': len(genes), 'singles': len(singles),
-                  'nodes': sum(1 for _ in named.nodes()),
-                  'dups': sum(count_dups(h) for h in hists)})
-    return Case(tree, species, groups, use_internal=use_internal, histories=histories, singles=singles,
+    stats.update({'leaves': pl.nleaves, 'families': len(pl.hists), 'genes': pl.ngenes, 'singles': len(pl.singles),
+                  'nodes': sum(1 for _ in pl.named.nodes()),
+                  'dups': sum(count_dups(h) for h in pl.hists)})
+    return Case(pl.tree, species, groups, use_internal=pl.use_internal, histories=histories, singles=pl.singles,
                 tag=tag, stats=stats)
+
+
+def gen_case(rng, nleaves=None, nfam=None, explicit=False, fancy_names=False, use_internal=None,
+             max_leaves=10, tag='main', **spell_kw):
+    pl = gen_plan(rng, nleaves=nleaves, nfam=nfam, fancy_names=fancy_names, use_internal=use_internal,
+                  max_leaves=max_leaves)
+    return spell_plan(rng, pl, explicit=explicit, tag=tag, **spell_kw)
 
 
 def count_dups(h):
